@@ -48,7 +48,7 @@ ROTS = [37.0, 90.0, 180.0, -120.0, 1.0]
 PTS = np.array([[0.0, 0.0, 0.0], [0.9, 0.2, 0.0], [-0.5, 1.1, 0.0],
                 [0.17, 0.11, 0.0], [-1.3, -0.7, 0.0], [2.0, -1.5, 0.0],
                 [3.0, 3.0, 0.0]])
-QUICK_SUBSETS = [(0,), (0, 1), (2, 3), (0, 1, 2), (1, 3, 4), (0, 2, 5),
+QUICK_SUBSETS = [(0,), (3,), (0, 1), (2, 3), (0, 1, 2), (1, 3, 4), (0, 2, 5),
                  (0, 1, 2, 3), (1, 2, 4, 5)]
 
 
@@ -69,7 +69,7 @@ def cases(tier, seed):
                 [(0, 1, 2, 3, 4), (1, 2, 3, 4, 5), (0, 1, 2, 3, 4, 5)]):
         out.append({"id": "bigperm:%s" % "".join(map(str, sub)),
                     "kind": "bigperm", "sub": list(sub)})
-    for sub in (QUICK_SUBSETS[1:6] if tier == "quick" else
+    for sub in (QUICK_SUBSETS[2:7] if tier == "quick" else
                 [s for s in subsets if 2 <= len(s) <= 3]):
         out.append({"id": "rot:%s" % "".join(map(str, sub)), "kind": "rot",
                     "sub": list(sub)})
@@ -78,6 +78,9 @@ def cases(tier, seed):
                     "i": i})
     for i in range(len(WEAK)):
         out.append({"id": "weak-coupling#%d" % i, "kind": "weak", "i": i})
+    # cross sections of an oblique dimer under a joint rotation of the
+    # cluster and the polarization
+    out.append({"id": "xsec-rotation", "kind": "xsecrot", "_timeout": 900})
     # a cluster whose pairs share an x or a y coordinate exactly (special
     # branch of the translation matrices): permutations and rotations
     for opt in ("default", "tight"):
@@ -436,9 +439,45 @@ def _run_rule(case, ck):
     return got
 
 
+def _run_xsecrot(case, ck):
+    from holopy.scattering import (Sphere, Spheres, Multisphere,
+                                   calc_cross_sections)
+
+    def cluster(ps):
+        c, s = math.cos(ps), math.sin(ps)
+        R = np.array([[c, -s, 0], [s, c, 0], [0, 0, 1.0]])
+        c1 = R @ np.array([0.0, 0.0, 0.0])
+        c2 = R @ np.array([0.9, 0.35, 0.4])
+        with warnings.catch_warnings():
+            warnings.simplefilter("ignore")
+            return Spheres([Sphere(n=1.59, r=0.4, center=tuple(c1)),
+                            Sphere(n=1.45, r=0.3, center=tuple(c2))])
+    pa = math.radians(30.0)
+    base = calc_cross_sections(cluster(0.0), H.NMED, H.WL,
+                               (math.cos(pa), math.sin(pa)),
+                               theory=Multisphere()).values
+    ps = math.radians(37.0)
+    rot = calc_cross_sections(cluster(ps), H.NMED, H.WL,
+                              (math.cos(pa + ps), math.sin(pa + ps)),
+                              theory=Multisphere()).values
+    ck.trans += 2
+    # (the extinction value from the optical theorem is itself only
+    # rotation invariant to ~1e-3 on the unchanged tree and is not asserted)
+    for i, name in ((0, "C_sca"), (3, "asymmetry")):
+        e = abs(rot[i] - base[i]) / abs(base[i])
+        ck.metric("xsec-rotation-" + name, e)
+        ck.true("xsec-rotation-covariant", e <= 1e-6,
+                "%s of an oblique dimer changes by %.2e when cluster and "
+                "polarization are rotated together by 37 deg" % (name, e))
+    ck.metric("xsec-rotation-Cext(not asserted)",
+              abs(rot[2] - base[2]) / abs(base[2]))
+    return digest(np.round(np.asarray(base, float), 9))
+
+
 def run_case(case):
     ck = Checker()
     _USE_ALIGNED[0] = bool(case.get("aligned"))
     fp = {"perm": _run_perm, "bigperm": _run_bigperm, "rot": _run_rot,
-          "rule": _run_rule, "weak": _run_weak}[case["kind"]](case, ck)
+          "rule": _run_rule, "weak": _run_weak,
+          "xsecrot": _run_xsecrot}[case["kind"]](case, ck)
     return ck.result(fp=fp)
